@@ -18,6 +18,10 @@ fn main() {
         ("c10", "record") => yv::c10::record(&args),
         ("c20", "record") => yv::c20::record(&args),
         ("c20", "replay") => yv::c20::replay(&args),
+        ("c04", "record") => yv::c04::record(&args),
+        ("c04", "replay") => yv::c04::replay(&args),
+        ("c18", "record") => yv::c18::record(&args),
+        ("c18", "replay") => yv::c18::replay(&args),
         _ => { eprintln!("unknown command {:?}", &a[..2]); std::process::exit(2); }
     }
 }
